@@ -6,6 +6,7 @@ real code) plus the bus lock-step model MC_Heap, and reports the events whose ON
 conjunct (TLC prints them as <<"HEAP", line>>).  Functional rejections belong to the component's own
 property and are not reported here.  The families run concurrently."""
 import concurrent.futures as cf
+import os
 from lib import kit
 from props import ring, stream
 
@@ -46,18 +47,20 @@ def _dsp2(m):
     for pid, label in (("C17", "osc"), ("C18", "sinc"), ("C20", "window")):
         SOURCES.append((label, lambda c, pid=pid: m.pipeline(c, pid)))
     for comp, pid in (("osc", "C17"), ("noise", "C17"), ("sinc", "C18"), ("sinc_conv", "C18"), ("sinc_lin", "C18"),
-                      ("window", "C20"), ("windower", "C20")):
+                      ("sinc_clin", "C18"), ("window", "C20"), ("windower", "C20"), ("winfn", "C20")):
         REPLAY[comp] = lambda c, r, pid=pid: m.pipeline(c, pid, replay=r)
 
 
 def _conv(m):
     SOURCES.append(("converter", lambda c: m.pipeline(c)))
-    REPLAY["converter"] = lambda c, r: m.pipeline(c, replay=r)
+    REPLAY["conv"] = lambda c, r: m.pipeline(c, replay=r)
 
 
 def _sample(m):
     for pid in ("C01", "C02", "C15"):
         SOURCES.append(("sample-" + pid, lambda c, pid=pid: m.pipeline(c, pid)))
+    # a replay file of the sample family is executed whatever property produced it; C15's pipeline runs both profiles
+    REPLAY["sample"] = lambda c, r: m.pipeline(c, "C15", replay=r, profiles=("debug", "release"))
 
 
 def _signal(m):
@@ -76,6 +79,8 @@ def _dsp1(m):
 def _frame(m):
     SOURCES.append(("frame", lambda c: m.pipeline(c, "frame")))
     SOURCES.append(("slice", lambda c: m.pipeline(c, "slice")))
+    REPLAY["frame"] = lambda c, r: m.pipeline(c, "frame", replay=r)
+    REPLAY["slice"] = lambda c, r: m.pipeline(c, "slice", replay=r)
 
 
 _optional("graph", _graph)
@@ -113,8 +118,13 @@ def c07(ctx, replay):
         c = ctx.child(label)
         rej, heap = fn(c)
         return label, c, rej, heap
+    sources = SOURCES
+    only = os.environ.get("VERIF_C07_ONLY")     # tools/run_equiv_c07.py: just the families a patch can reach
+    if only:
+        sources = [s for s in SOURCES if s[0] in only.split(",")]
+        ctx.notes.append("VERIF_C07_ONLY: restricted to " + ",".join(s[0] for s in sources))
     with cf.ThreadPoolExecutor(max_workers=7) as ex:
-        results = list(ex.map(one, SOURCES))
+        results = list(ex.map(one, sources))
     for label, c, rej, heap in results:
         ctx.merge(c)
         if rej:
